@@ -250,7 +250,8 @@ pub fn arc_build(files: &[(String, Vec<u8>)], plan: &ArcPlan, rng: &mut Rng) -> 
         let mut offset = (body_base + off[*i] - base) as u32;
         if plan.out_of_range_record == Some(slot) {
             size = size.max(1);
-            match rng.below(4) {
+            match rng.below(5) {
+                4 => size |= 0x8000_0000, // the low 31 bits alone would fit
                 0 => size = (final_len + 1000) as u32,
                 1 => offset = 0x00FF_FFF0,
                 2 => offset = 0xFFFF_FFF0, // + 0x60 does not fit in 32 bits
